@@ -277,7 +277,7 @@ fn callname(c: &Call) -> &'static str {
 #[derive(Clone, Debug)]
 pub struct FileCase {
     pub widths: Vec<usize>, // input, then one per linear layer
-    pub markers: Vec<u8>,   // after each linear: 0 none, 1 relu, 2 hard_tanh, 3 hard_sigmoid
+    pub markers: Vec<u8>,   // after each linear: 0 none, 1 relu, 2 hard_tanh, 3 hard_sigmoid; m >= 4: two markers (m/4, m%4)
     pub pat: u8,
 }
 
@@ -301,6 +301,23 @@ pub fn file_cases(tier: Tier) -> Vec<FileCase> {
             let mut k = 0;
             loop { if k == nl + 1 { break; } w[k] += 1; if w[k] <= 3 { break; } w[k] = 1; k += 1; }
             if k == nl + 1 { break; }
+        }
+    }
+    // two activation markers after the same linear layer (e.g. relu then hard_tanh)
+    for nl in 1..=2usize {
+        for first in 1..4u8 {
+            for second in 1..4u8 {
+                for w in 1..=3usize {
+                    let widths: Vec<usize> = (0..=nl).map(|i| 1 + (i + w) % 3).collect();
+                    let mut markers = vec![0u8; nl];
+                    markers[0] = first * 4 + second;
+                    v.push(FileCase { widths: widths.clone(), markers: markers.clone(), pat: w as u8 });
+                    if nl == 2 {
+                        markers[1] = second * 4 + first;
+                        v.push(FileCase { widths, markers, pat: w as u8 });
+                    }
+                }
+            }
         }
     }
     // long files: more than 10 entries so that the name sort matters
@@ -335,7 +352,8 @@ pub fn run_file_case(idx: usize, c: &FileCase) -> CaseOut {
             expected.push(("linear".into(), Some(a), 0));
             counter += 1;
             let m = c.markers[l];
-            if m != 0 {
+            let ms: Vec<u8> = if m >= 4 { vec![m / 4, m % 4] } else if m != 0 { vec![m] } else { vec![] };
+            for m in ms {
                 let name = ["", "relu", "hard_tanh", "hard_sigmoid"][m as usize];
                 entries.push((format!("{:03}.{}", counter, name), None));
                 for i in 0..c.widths[l + 1] {
